@@ -222,7 +222,7 @@ class Check:
             for t in thms:
                 self.oblige('Props/%s.v: %s' % (self.pid, t), True)
         self.assumption_text = out.strip()
-        axioms = sorted(set(re.findall(r'^([A-Za-z_][\w\.]*)\s*:', out, flags=re.M)))
+        axioms = sorted(set(re.findall(r'^([A-Za-z_][\w\.]*)\s*:', out, flags=re.M)) - {'Axioms'})
         self.axioms = axioms
         self.extra['print_assumptions'] = out.strip()[-6000:]
         self.extra['props_coqc_s'] = round(dt, 1)
